@@ -161,3 +161,24 @@ Proof.
     try (prun; rewrite ?Pos.eqb_refl; reflexivity);
     try (change (pexec pskip h3 (U g)) with (h3 (U g)); rewrite E3, E8, Eg; reflexivity).
 Qed.
+
+(* ---- the variants without the protection violate the statements (concrete stores over GF(101)) *)
+Definition pst (l : list (positive * poly)) : pstore :=
+  fold_right (fun pv h => pupd h (U (fst pv)) (snd pv)) (fun _ => []) l.
+Lemma poly_mul_unguarded_refuted : ~ Pure_destP (fun r a b _ => P_mul_unguarded 101 r a b).
+Proof.
+  intro H. specialize (H (pst [(1%positive, [1; 2; 3])]) 1%positive 1%positive 1%positive 2%positive []).
+  vm_compute in H. discriminate H.
+Qed.
+(* seeded change C15-m4: P = (x-2)(x-3)(x-5), Q = (x-2)(x-3)(x-4)(x-6)(x-8)(x-9), gcd(G, P, G) with G = Q returns P *)
+Lemma poly_gcd_swapped_refuted :
+  exists (h : pstore) (g a b : positive),
+    pexec (P_gcd_swapped 101 (U g) (U a) (U b)) h (U g) <> gcd_val 101 (h (U a)) (h (U b)).
+Proof.
+  exists (pst [(1%positive, [71; 31; 91; 1]); (2%positive, [66; 45; 76; 6; 3; 69; 1])]), 2%positive, 1%positive, 2%positive.
+  vm_compute. discriminate.
+Qed.
+Example poly_gcd_example :
+  pexec (P_gcd 101 (U 2) (U 1) (U 2)) (pst [(1%positive, [71; 31; 91; 1]); (2%positive, [66; 45; 76; 6; 3; 69; 1])]) (U 2)
+  = [29; 60; 89].
+Proof. vm_compute. reflexivity. Qed.
